@@ -100,6 +100,69 @@ fn run_case(line: &str) -> String {
     s
 }
 
+
+// Free-running stress (no scheduler): emitters hammer the wrapper while the owner recovers or drops
+// the handle; judged by the property itself.  `STRESS <emitters> <emissions> <mode R|D>`.
+static RECOVERED: AtomicBool = AtomicBool::new(false);
+fn stress(emitters: usize, n: usize, mode: &str) -> String {
+    metrics::__verif::set_callback(None);
+    RECOVERED.store(false, SeqCst);
+    let inside = Arc::new(AtomicU64::new(0));
+    let drops = Arc::new(AtomicU64::new(0));
+    let late = Arc::new(AtomicBool::new(false));
+    let (wrapped, handle) = RecoverableRecorder::new(Dbl { inside: inside.clone(), drops: drops.clone(), late: late.clone() }).__verif_build();
+    let wrapped: Arc<dyn Recorder + Send + Sync> = Arc::new(wrapped);
+    let reached_after = Arc::new(AtomicU64::new(0));
+    let reached = Arc::new(AtomicU64::new(0));
+    let inert_before = Arc::new(AtomicU64::new(0));
+    let started = Arc::new(AtomicU64::new(0));
+    let mut hs = Vec::new();
+    for t in 0..emitters {
+        let (w, ra, re, ib, st) = (wrapped.clone(), reached_after.clone(), reached.clone(), inert_before.clone(), started.clone());
+        hs.push(std::thread::spawn(move || {
+            st.fetch_add(1, SeqCst);
+            for k in 0..n {
+                let before = RECOVERED.load(SeqCst);
+                REACHED.with(|r| r.set(false));
+                emit(&*w, k + t);
+                let hit = REACHED.with(|r| r.get());
+                if hit { re.fetch_add(1, SeqCst); if before { ra.fetch_add(1, SeqCst); } }
+                // an emission that completed before the owner even started must have reached the recorder
+                if !hit && !OWNER_STARTED.load(SeqCst) { ib.fetch_add(1, SeqCst); }
+            }
+        }));
+    }
+    while started.load(SeqCst) < emitters as u64 { std::thread::yield_now(); }
+    std::thread::sleep(std::time::Duration::from_micros(30));
+    let mut bad: Vec<String> = Vec::new();
+    let mut held: Option<Dbl> = None;
+    // OWNER_STARTED is set AFTER the emitters' "before" reads can no longer be stale: emissions whose
+    // whole execution precedes this store are guaranteed live
+    OWNER_STARTED.store(true, SeqCst);
+    if mode == "R" {
+        let r = handle.into_inner();
+        let (i, d) = (inside.load(SeqCst), drops.load(SeqCst));
+        RECOVERED.store(true, SeqCst);
+        if i != 0 { bad.push(format!("into_inner returned while {} emission(s) were inside the recorder", i)); }
+        if d != 0 { bad.push("into_inner returned a recorder that had already been dropped".into()); }
+        held = Some(r);
+    } else {
+        drop(handle);
+    }
+    for h in hs { let _ = h.join(); }
+    OWNER_STARTED.store(false, SeqCst);
+    if late.load(SeqCst) { bad.push("a call entered the recorder after it had been dropped".into()); }
+    if reached_after.load(SeqCst) != 0 { bad.push(format!("{} emission(s) that started after into_inner returned reached the recorder", reached_after.load(SeqCst))); }
+    if inert_before.load(SeqCst) != 0 { bad.push(format!("{} emission(s) completed before recovery/drop began were inert", inert_before.load(SeqCst))); }
+    let d = drops.load(SeqCst);
+    if mode == "R" { if d != 0 { bad.push(format!("recovered recorder dropped {} time(s) by the library", d)); } }
+    else if d != 1 { bad.push(format!("after the handle was dropped and all emitters finished the recorder was dropped {} time(s)", d)); }
+    drop(held);
+    if bad.is_empty() { format!("stress ok mode={} emissions={} reached={}", mode, emitters * n, reached.load(SeqCst)) }
+    else { bad.truncate(3); format!("stress FAIL {}", bad.join(" | ")) }
+}
+static OWNER_STARTED: AtomicBool = AtomicBool::new(false);
+
 fn install_failure() -> String {
     // a global recorder exists: install must hand the original recorder back intact
     let _ = metrics::set_global_recorder(metrics::NoopRecorder);
@@ -124,6 +187,12 @@ fn main() {
         let line = line.unwrap();
         if line.trim().is_empty() { continue; }
         if line.trim() == "INSTALL-FAILURE" { writeln!(w, "{}", install_failure()).unwrap(); continue; }
+        if let Some(rest) = line.trim().strip_prefix("STRESS") {
+            let v: Vec<&str> = rest.split_whitespace().collect();
+            let r = std::panic::catch_unwind(|| stress(v[0].parse().unwrap(), v[1].parse().unwrap(), v[2]));
+            writeln!(w, "{}", r.unwrap_or_else(|_| "stress FAIL panic in into_inner/emission".to_string())).unwrap();
+            continue;
+        }
         writeln!(w, "{}", run_case(&line)).unwrap();
     }
 }
